@@ -113,8 +113,10 @@ async def _drive(case: Dict[str, Any], call) -> Dict[str, Any]:
         rid = getattr(first, "id", None)
         obs["rid"] = rid
         n = 0
+        groups: Dict[float, List[Any]] = {}
         for t, kind in case["arrivals"]:
-            await vsleep_until(t)
+            if case.get("inject") != "timer":
+                await vsleep_until(t)
             n += 1
             wire = _wire(kind, rid, n)
             try:
@@ -123,7 +125,18 @@ async def _drive(case: Dict[str, Any], call) -> Dict[str, Any]:
                 obs["arrived"].append({"t": t, "kind": kind, "wire": wire, "unbuildable": repr(e)})
                 continue
             obs["arrived"].append({"t": t, "kind": kind, "wire": wire})
-            pipe.srv_send.send_nowait(obj)
+            if case.get("inject") == "timer":
+                # the message is put on the stream by a callback of the same loop iteration in which other timers
+                # (a poll slice ending, the deadline) are due - as when a transport reader is resumed by I/O in that
+                # iteration; together with the seeded tie order this explores both orders of the two events
+                # arrivals with the same arrival time keep their scripted order: one callback per instant
+                groups.setdefault(t, []).append(obj)
+            else:
+                pipe.srv_send.send_nowait(obj)
+        for gt, objs in groups.items():
+            loop.call_at(max(gt, loop.time()), lambda objs=objs: [pipe.srv_send.send_nowait(o) for o in objs])
+        if case.get("inject") == "timer":
+            await vsleep_until(max([t for t, _ in case["arrivals"]] + [0]) + 0.001)
         # keep draining further writes
         while True:
             try:
@@ -347,6 +360,12 @@ def gen_cases(ctx):
             for build in ("parse", "validate"):
                 for mid in (None, "123"):
                     yield {"mid": mid, "params": None, "build": build, "arrivals": [[t, kind]]}
+            if abs(t * 2 - round(t * 2)) < 1e-9 and kind.startswith("match"):
+                # arrival at the instant a poll slice (or the deadline) ends: both orders of the two timers
+                for tie in (1, 2, 3, 4):
+                    yield {"mid": None, "params": None, "build": "parse", "arrivals": [[t, kind]], "tie": tie}
+                    yield {"mid": None, "params": None, "build": "parse", "arrivals": [[t, kind]], "tie": tie,
+                           "inject": "timer"}
     # 2. all ordered pairs of kinds on coarse slots (t1<=t2)
     for k1, k2 in itertools.product(KINDS, repeat=2):
         for i, t1 in enumerate(coarse):
@@ -373,7 +392,8 @@ def gen_cases(ctx):
                     for _ in range(L))
         yield {"mid": rng.choice(ID_SHAPES), "params": rng.choice(PARAMS_SHAPES),
                "build": rng.choice(["parse", "validate"]),
-               "arrivals": [[t, rng.choice(KINDS)] for t in ts], "tie": rng.randint(0, 3)}
+               "arrivals": [[t, rng.choice(KINDS)] for t in ts], "tie": rng.randint(0, 3),
+               "inject": rng.choice(["task", "task", "timer"])}
 
 
 def exec_case(ctx, case: Dict[str, Any]) -> None:
